@@ -1,6 +1,138 @@
-/- C06 — statements under construction -/
-import AgpTpf.Model.Text
+/-
+  C06 — Every AGP the tools write is coordinate-valid.
+
+  `formatAgp` / `formatAgpRows` (Model/Text.lean) is the only AGP writer in the model (asm-format, pretext-to-asm
+  and the `.agp` cache all go through `format_agp`).  Validity is stated on the column lists that are joined by
+  tabs into the written lines (`agpCols`, proved equal to what the model writes: `formatAgpRows_eq`) with every
+  numeric column read back through `pyInt` (= Python `int()`), so the statement is about the written TEXT.
+  C05 (`AgpTpf.C05.agp_line_cols`) shows that the AGP reader recovers exactly these columns from the line.
+
+  Definitions are in Proofs/C06Cols.lean:
+    `ValidAgpLine strict name p i e cols` — one line: object = name, start = p+1, end = e, part = i+1,
+        sequence line: col5 = "W", `end - start = cmp_end - cmp_start`, strand column from the strand table;
+        gap line: col5 = "U", exactly 9 columns, `end - start + 1 = gap length`, linkage "yes", evidence, a gap type;
+        with `strict`: `start ≤ end` and gap type non-empty.
+    `ValidAgpLines strict name p i colss last` — the lines chain: each start = previous end + 1, parts count up,
+        final end = `last`.
+  Not covered here: "the FASTA record's length when a FASTA is written with it" (Fasta/Cache models, property C04/C15).
+-/
+import AgpTpf.Proofs.C06Cols
+import AgpTpf.Proofs.C05MapM
 namespace AgpTpf.C06
-open AgpTpf
-theorem joinWith_single (sep : Char) (f : Str) : joinWith sep [f] = f := rfl
+open AgpTpf AgpTpf.C05
+
+/-- the constants the validity predicate mentions are the AGP ones -/
+theorem agp_constants :
+    Gen.agpGapCol5 = "U".toList ∧ Gen.agpGapLinkage = "yes".toList ∧ Gen.agpGapEvidence ≠ [] ∧
+    Gen.agpFragCol5 = "W".toList ∧ Gen.agpStrandStr = ["?".toList, "+".toList, "-".toList] := by decide
+
+/-- One scaffold, started at any running position `p` / part number `i`: whenever `format_agp` writes
+    the rows at all (no exception), the lines written are exactly the tab-joined column lists `colss`,
+    one per row, and they tile the object from `p+1` to `p + length` with parts `i+1, i+2, …`. -/
+theorem format_agp_valid_of_ok (name : Str) (p i : Int) (rows : List Row) (lines : List Str)
+    (h : formatAgpRows name p i rows = .ok lines) :
+    ∃ colss, lines = colss.map lineOfCols ∧ colss.length = rows.length ∧
+      ValidAgpLines false name p i colss (p + rowsLength rows) := by
+  rw [formatAgpRows_eq] at h
+  cases hc : agpCols name p i rows with
+  | error e => rw [hc] at h; cases h
+  | ok colss =>
+    rw [hc] at h; cases h
+    have hw := (agpCols_ok_iff_strands name p i rows).1 ⟨colss, hc⟩
+    obtain ⟨colss', hc', hlen, hv⟩ := agpCols_valid false name p i rows hw (fun h => Bool.noConfusion h)
+    rw [hc] at hc'; cases hc'
+    exact ⟨colss, rfl, hlen, hv⟩
+
+/-- Fragments as `mkFragment` admits them (strand ∈ {-1,0,1}): formatting succeeds and is valid. -/
+theorem format_agp_valid (name : Str) (p i : Int) (rows : List Row) (hs : ∀ r ∈ rows, StrandOk r) :
+    ∃ colss, formatAgpRows name p i rows = .ok (colss.map lineOfCols) ∧ colss.length = rows.length ∧
+      ValidAgpLines false name p i colss (p + rowsLength rows) := by
+  obtain ⟨colss, hc, hlen, hv⟩ := agpCols_valid false name p i rows (fun r hr => (hs r hr).writable)
+    (fun h => Bool.noConfusion h)
+  exact ⟨colss, by rw [formatAgpRows_eq, hc]; rfl, hlen, hv⟩
+
+/-- With positive lengths (fragments `start ≤ end`, gaps `length ≥ 1` with a non-empty type) additionally every
+    line has `start ≤ end` — no empty or backwards span — and every gap line names its type. -/
+theorem format_agp_valid_strict (name : Str) (p i : Int) (rows : List Row) (hs : ∀ r ∈ rows, StrandOk r)
+    (hp : ∀ r ∈ rows, RowStrict r) :
+    ∃ colss, formatAgpRows name p i rows = .ok (colss.map lineOfCols) ∧ colss.length = rows.length ∧
+      ValidAgpLines true name p i colss (p + rowsLength rows) := by
+  obtain ⟨colss, hc, hlen, hv⟩ := agpCols_valid true name p i rows (fun r hr => (hs r hr).writable) (fun _ => hp)
+  exact ⟨colss, by rw [formatAgpRows_eq, hc]; rfl, hlen, hv⟩
+
+/-- FINDING (why `strict` needs a hypothesis): a gap of length 0 is written with `end = start - 1`. -/
+example : formatAgpRows "s".toList 0 0 [.gap { length := 0, gapType := "scaffold".toList }] =
+    .ok ["s\t1\t0\t1\tU\t0\tscaffold\tyes\tproximity_ligation\n".toList] := by rfl
+
+/-- The whole assembly: the written file is the header lines followed, scaffold by scaffold, by lines that tile
+    each object from 1 (`p = 0`), parts from 1 (`i = 0`), up to the scaffold's length. -/
+theorem formatAgp_valid (a : Assembly) (hs : ∀ s ∈ a.scaffolds, ∀ r ∈ s.rows, StrandOk r) :
+    ∃ bodies : List (List (List Str)),
+      formatAgp a = .ok (a.header.map (fun h => Gen.agpHeaderPrefix ++ h ++ ['\n']) ++
+                          (bodies.map (List.map lineOfCols)).flatten) ∧
+      Forall2 (fun (s : Scaffold) colss => colss.length = s.rows.length ∧
+                  ValidAgpLines false s.name 0 0 colss s.length) a.scaffolds bodies := by
+  have := mapM_ok_of_forall (fun s : Scaffold => formatAgpRows s.name 0 0 s.rows)
+    (fun s ls => ∃ colss, ls = colss.map lineOfCols ∧ colss.length = s.rows.length ∧
+        ValidAgpLines false s.name 0 0 colss s.length) a.scaffolds
+    (by
+      intro s hsm
+      obtain ⟨colss, h1, h2, h3⟩ := format_agp_valid s.name 0 0 s.rows (hs s hsm)
+      refine ⟨_, h1, colss, rfl, h2, ?_⟩
+      simpa [Scaffold.length] using h3)
+  obtain ⟨ls, hls, hall⟩ := this
+  -- choose the column lists
+  have hex : ∀ (scs : List Scaffold) (ls : List (List Str)),
+      Forall2 (fun (s : Scaffold) ls => ∃ colss, ls = colss.map lineOfCols ∧ colss.length = s.rows.length ∧
+        ValidAgpLines false s.name 0 0 colss s.length) scs ls →
+      ∃ bodies : List (List (List Str)), ls = bodies.map (List.map lineOfCols) ∧
+        Forall2 (fun (s : Scaffold) colss => colss.length = s.rows.length ∧
+                  ValidAgpLines false s.name 0 0 colss s.length) scs bodies := by
+    intro scs
+    induction scs with
+    | nil => intro ls h; cases ls with | nil => exact ⟨[], rfl, trivial⟩ | cons _ _ => exact h.elim
+    | cons s t ih =>
+      intro ls h
+      cases ls with
+      | nil => exact h.elim
+      | cons l lt =>
+        obtain ⟨⟨colss, e, h2, h3⟩, ht⟩ := h
+        obtain ⟨bt, ebt, hbt⟩ := ih lt ht
+        exact ⟨colss :: bt, by simp [e, ebt], ⟨h2, h3⟩, hbt⟩
+  obtain ⟨bodies, eb, hb⟩ := hex _ _ hall
+  refine ⟨bodies, ?_, hb⟩
+  unfold formatAgp
+  rw [hls, eb]; rfl
+
+/-- …and strictly valid when all rows have positive length. -/
+theorem formatAgp_valid_strict (a : Assembly) (hs : ∀ s ∈ a.scaffolds, ∀ r ∈ s.rows, StrandOk r)
+    (hp : ∀ s ∈ a.scaffolds, ∀ r ∈ s.rows, RowStrict r) :
+    ∃ lines, formatAgp a = .ok lines ∧
+      ∀ s ∈ a.scaffolds, ∃ colss, formatAgpRows s.name 0 0 s.rows = .ok (colss.map lineOfCols) ∧
+        colss.length = s.rows.length ∧ ValidAgpLines true s.name 0 0 colss s.length := by
+  obtain ⟨bodies, h, _⟩ := formatAgp_valid a hs
+  refine ⟨_, h, ?_⟩
+  intro s hsm
+  obtain ⟨colss, h1, h2, h3⟩ := format_agp_valid_strict s.name 0 0 s.rows (hs s hsm) (hp s hsm)
+  exact ⟨colss, h1, h2, by simpa [Scaffold.length] using h3⟩
+
+/-! Non-vacuity: a concrete two-scaffold assembly (gap, minus strand, unknown strand, tags). -/
+def demo : Assembly :=
+  { header := ["hdr".toList],
+    scaffolds := [
+      { name := "scaffold_1".toList,
+        rows := [.frag { name := "ctg:1".toList, start := 1, stop := 1000000000000, strand := 1, tags := ["Painted".toList] },
+                 .gap { length := 200, gapType := "scaffold".toList },
+                 .frag { name := "ctg2".toList, start := 5, stop := 9, strand := -1, tags := ["X".toList, "Y".toList] }] },
+      { name := "scaffold_2".toList,
+        rows := [.frag { name := "ctg3".toList, start := 11, stop := 20, strand := 0 }] }] }
+
+example : (∀ s ∈ demo.scaffolds, ∀ r ∈ s.rows, StrandOk r) ∧ (∀ s ∈ demo.scaffolds, ∀ r ∈ s.rows, RowStrict r) := by
+  decide
+
+example : formatAgpRows "s".toList 0 0 [.frag { name := "c".toList, start := 5, stop := 9, strand := -1 },
+      .gap { length := 3, gapType := "scaffold".toList }] =
+    .ok ["s\t1\t5\t1\tW\tc\t5\t9\t-\n".toList, "s\t6\t8\t2\tU\t3\tscaffold\tyes\tproximity_ligation\n".toList] := by
+  rfl
+
 end AgpTpf.C06
